@@ -425,88 +425,100 @@ func (w *World) setRelationsBatch(batch *Batch, relations []relationID, fn func(
 	if len(relations) == 0 {
 		panic("no relations specified")
 	}
-	lock := w.lock()
-	hasObserver := w.storage.observers.HasObservers(OnAddRelations) || w.storage.observers.HasObservers(OnRemoveRelations)
+	hasRemoveObs := w.storage.observers.HasObservers(OnRemoveRelations)
+	hasAddObs := w.storage.observers.HasObservers(OnAddRelations)
+	hasObserver := hasRemoveObs || hasAddObs
 
+	// Resolve the target tables for all affected tables first.
+	// Invalid arguments cause a panic here, before anything is changed or locked.
 	tables := w.storage.getBatchTables(batch)
-	lengths := w.storage.slices.ints
-	var totalEntities uint32 = 0
+	batchTables := w.storage.slices.batches
+	var changeMasks []bitMask
 	for _, tableID := range tables {
 		table := &w.storage.tables[tableID]
-		lengths = append(lengths, uint32(table.Len()))
-		totalEntities += uint32(table.Len())
-	}
-
-	for i, tableID := range tables {
-		tableLen := lengths[i]
-		if tableLen == 0 {
+		if table.Len() == 0 {
 			continue
 		}
-		table := &w.storage.tables[tableID]
-		w.setRelationsTable(table, int(tableLen), relations, fn, hasObserver)
-	}
+		var changeMask bitMask
+		var maskPointer *bitMask
+		if hasObserver {
+			maskPointer = &changeMask
+		}
+		newRelations, changed := w.storage.getExchangeTargets(table, relations, maskPointer)
+		if !changed {
+			continue
+		}
 
-	w.storage.slices.ints = lengths[:0]
+		oldArch := &w.storage.archetypes[table.archetype]
+		newTable, ok := oldArch.GetTable(&w.storage, newRelations)
+		if !ok {
+			newTable = w.storage.createTable(oldArch, newRelations)
+			// Get the old table again, as pointers may have changed.
+			table = &w.storage.tables[tableID]
+		}
+		batchTables = append(batchTables, batchTable{
+			oldTable: tableID,
+			newTable: newTable.id,
+			len:      uint32(table.Len()),
+		})
+		if hasObserver {
+			changeMasks = append(changeMasks, changeMask)
+		}
+	}
 	w.storage.slices.tables = tables[:0]
 
+	lock := w.lock()
+
+	// Removal events for the entire batch, before anything is changed.
+	if hasRemoveObs {
+		for i := range batchTables {
+			batch := &batchTables[i]
+			oldTable := &w.storage.tables[batch.oldTable]
+			newMask := &w.storage.archetypes[oldTable.archetype].mask
+			len := uintptr(batch.len)
+			earlyOut := true
+			for j := uintptr(0); j < len; j++ {
+				if !w.storage.observers.FireSetRelations(OnRemoveRelations, oldTable.GetEntity(j), &changeMasks[i], newMask, earlyOut) {
+					break
+				}
+				earlyOut = false
+			}
+		}
+	}
+
+	for i := range batchTables {
+		batch := &batchTables[i]
+		oldTable := &w.storage.tables[batch.oldTable]
+		newTable := &w.storage.tables[batch.newTable]
+		batch.start = uint32(newTable.Len())
+		w.storage.moveEntities(oldTable, newTable, batch.len)
+
+		if fn != nil {
+			fn(batch.newTable, int(batch.start), int(batch.len))
+		}
+	}
+
+	// Add events for the entire batch, after everything is changed.
+	if hasAddObs {
+		for i := range batchTables {
+			batch := &batchTables[i]
+			newTable := &w.storage.tables[batch.newTable]
+			newMask := &w.storage.archetypes[newTable.archetype].mask
+			len := uintptr(batch.start + batch.len)
+			earlyOut := true
+			for j := uintptr(batch.start); j < len; j++ {
+				if !w.storage.observers.FireSetRelations(OnAddRelations, newTable.GetEntity(j), &changeMasks[i], newMask, earlyOut) {
+					break
+				}
+				earlyOut = false
+			}
+		}
+	}
+
+	w.storage.slices.batches = batchTables[:0]
 	w.storage.registerTargets(relations)
 
 	w.unlock(lock)
-}
-
-// setRelationsTable batch-changes entity relations for a single table.
-func (w *World) setRelationsTable(oldTable *table, oldLen int, relations []relationID, fn func(table tableID, start, len int), hasObserver bool) {
-	var changeMask bitMask
-	var maskPointer *bitMask
-	if hasObserver {
-		maskPointer = &changeMask
-	}
-	newRelations, changed := w.storage.getExchangeTargets(oldTable, relations, maskPointer)
-
-	if !changed {
-		return
-	}
-
-	oldArch := &w.storage.archetypes[oldTable.archetype]
-	newTable, ok := oldArch.GetTable(&w.storage, newRelations)
-	if !ok {
-		newTable = w.storage.createTable(oldArch, newRelations)
-		// Get the old table again, as pointers may have changed.
-		oldTable = &w.storage.tables[oldTable.id]
-	}
-
-	// TODO: move this before the entire batch?
-	if w.storage.observers.HasObservers(OnRemoveRelations) {
-		newMask := &w.storage.archetypes[newTable.archetype].mask
-		len := uintptr(oldTable.len)
-		earlyOut := true
-		for i := uintptr(0); i < len; i++ {
-			if !w.storage.observers.FireSetRelations(OnRemoveRelations, oldTable.GetEntity(i), &changeMask, newMask, earlyOut) {
-				break
-			}
-			earlyOut = false
-		}
-	}
-
-	startIdx := newTable.Len()
-	w.storage.moveEntities(oldTable, newTable, uint32(oldLen))
-
-	if fn != nil {
-		fn(newTable.id, startIdx, oldLen)
-	}
-
-	// TODO: move this after the entire batch?
-	if w.storage.observers.HasObservers(OnAddRelations) {
-		newMask := &w.storage.archetypes[newTable.archetype].mask
-		earlyOut := true
-		for i := range oldLen {
-			index := uintptr(startIdx + i)
-			if !w.storage.observers.FireSetRelations(OnAddRelations, newTable.GetEntity(index), &changeMask, newMask, earlyOut) {
-				break
-			}
-			earlyOut = false
-		}
-	}
 }
 
 // componentID returns the component ID for a runtime component type.
